@@ -13,10 +13,13 @@ Cancellation is one more decision kind: SimCancelled (a BaseException) is
 raised inside the running thread at that line event -- what a signal-based
 per-document timeout or KeyboardInterrupt does.
 """
+import _thread
 import math
 import sys
 import threading
 import zlib
+
+from sim import simlock
 
 _MASK = (1 << 64) - 1
 
@@ -50,11 +53,13 @@ class Baton:
         self.cancel_plan = dict(cancel_plan or {})  # gen mode: t -> local event count (whole thread)
         self.max_events = max_events
         self.use_burst = burst
-        self.locks = [threading.Lock() for _ in range(nthreads)]
+        # the scheduler's own locks are always real ones
+        self.locks = [_thread.allocate_lock() for _ in range(nthreads)]
         for lk in self.locks:
             lk.acquire()
-        self.main_lock = threading.Lock()
+        self.main_lock = _thread.allocate_lock()
         self.main_lock.acquire()
+        self.lock_waits = 0
         self.current = None
         self.done = [False] * nthreads
         self.op_index = [-1] * nthreads     # current op of each thread
@@ -184,6 +189,18 @@ class Baton:
         self.locks[to].release()
         self.locks[me].acquire()
 
+    def lock_blocked(self, me):
+        """Called by a SimLock whose acquire would block: run somebody else.
+        Deterministic choice (next runnable thread in cyclic order), so nothing
+        has to be recorded for replay.  False = nobody else can run."""
+        others = self._runnable_others(me)
+        if not others:
+            return False
+        to = min(others, key=lambda t: (t - me) % self.n)
+        self.lock_waits += 1
+        self._switch(me, to)
+        return True
+
     # -- thread lifecycle -------------------------------------------------
     def begin_op(self, t, op_index, cancellable):
         self.op_index[t] = op_index
@@ -205,8 +222,12 @@ class Baton:
             first = self.rng.randrange(self.n) if (self.rng is not None and not self.replay) else 0
         self.first = first
         self.current = first
-        self.locks[first].release()
-        self.main_lock.acquire()
+        simlock.ACTIVE = self
+        try:
+            self.locks[first].release()
+            self.main_lock.acquire()
+        finally:
+            simlock.ACTIVE = None
         for th in threads:
             th.join(30)
         return self
